@@ -566,12 +566,78 @@ def check_partial(case: t.Any, ctx: Ctx) -> None:
             return
 
 
+# ---- frozen along inheritance chains ------------------------------------------------------------------------------------------
+#
+# "Frozen instances reject attribute assignment and deletion": frozen is an option of the class the instance belongs to (own
+# or inherited), whatever its bases were - a frozen class derived from a non-frozen one rejects, a non-frozen one derived from a
+# frozen one accepts (and records the field), parametrizations behave like their class.
+
+FROZEN_CHAINS = [
+    ('frozen-from-mutable', [('M', False), ('F', True)]),
+    ('mutable-from-frozen', [('F', True), ('M', False)]),
+    ('frozen-mutable-frozen', [('A', True), ('M', False), ('F', True)]),
+    ('inherits-mutable', [('M', False), ('S', None)]),
+    ('inherits-frozen', [('F', True), ('S', None)]),
+    ('mutable-frozen-inherit', [('M', False), ('F', True), ('S', None)]),
+]
+
+
+def frozen_cases(shard: int, nshards: int) -> t.Iterator[t.Any]:
+    i = 0
+    for (name, _) in FROZEN_CHAINS:
+        for generic in (False, True):
+            if i % nshards == shard:
+                yield [name, generic]
+            i += 1
+
+
+def check_frozen_chain(case: t.Any, ctx: Ctx) -> None:
+    import pane
+    import types as _types
+    from dataclasses import FrozenInstanceError
+    (name, generic) = case
+    chain = dict(FROZEN_CHAINS)[name]
+    ctx.label(name, 'generic' if generic else 'plain')
+    ctx.nontrivial(True)
+    T = t.TypeVar('T')
+    cls: t.Any = None
+    frozen = True       # pane's default
+    for (i, (cn, fr)) in enumerate(chain):
+        bases: t.Tuple[t.Any, ...] = (pane.PaneBase, t.Generic[T]) if (cls is None and generic) else ((pane.PaneBase,) if cls is None else (cls,))   # type: ignore
+        kw = {} if fr is None else {'frozen': fr}
+        ann = {f"f{i}": (T if (generic and i == 0) else int)}
+        cls = _types.new_class(cn, bases, kw, lambda ns, ann=ann, i=i: ns.update({'__annotations__': ann, f"f{i}": 0} if not (generic and i == 0) else {'__annotations__': ann}))
+        if fr is not None:
+            frozen = fr
+    final = cls[int] if generic else cls
+    kwargs = {'f0': 1} if generic else {}
+    for target in ([final] + ([type('Leaf', (final,), {'__annotations__': {}})] if generic else [])):
+        x = target(**kwargs)
+        for fname in (f"f{len(chain) - 1}", 'f0'):
+            ctx.evaluated()
+            before = (getattr(x, fname), set(x.__pane_set__))
+            (k, r) = outcome(lambda: setattr(x, fname, 41))
+            after = (getattr(x, fname), set(x.__pane_set__))
+            ident = f"chain {[(c, 'default' if f is None else f) for (c, f) in chain]}{' (first class generic, instance of its [int])' if generic else ''}: assigning {fname} on a {target.__name__} instance"
+            if frozen:
+                if k == 'ok' or after != before or not isinstance(r, FrozenInstanceError):
+                    ctx.fail('frozen', 'inherited-option:assignment-accepted', f"{ident} {'succeeded' if k == 'ok' else 'raised ' + type(r).__name__}; the class is frozen (value / record now {after}, before {before})")
+                    return
+            else:
+                if k != 'ok' or after != (41, before[1] | {fname}):
+                    ctx.fail('frozen', 'inherited-option:assignment-refused', f"{ident} gave {r!r}; the class is not frozen: the value should be 41 and the record gain {fname!r} (now {after}, before {before})")
+                    return
+                object.__setattr__(x, fname, before[0])
+                x.__pane_set__.discard(fname) if fname not in before[1] else None
+
+
 def suites(tier: str) -> t.List[Suite]:
     big = tier == 'thorough'
     return [
         Suite('cube', check, cases=cube_cases, exhaustive=True, budget_s=300, render=render),
         Suite('generic', check_generic, cases=generic_cases, exhaustive=True, budget_s=60),
         Suite('flags', check, strategy=cases, examples=6000 if big else 400, budget_s=300 if big else 30, render=render),
+        Suite('frozen-chains', check_frozen_chain, cases=frozen_cases, exhaustive=True, budget_s=30, render=lambda c: {'chain': c[0], 'generic': c[1]}),
         Suite('partial-order', check_partial, strategy=po_cases, examples=3000 if big else 300, budget_s=60 if big else 10,
               render=lambda c: {'compare flags (x: float, s: FrozenSet[int], n: int)': c[0], 'value indices': c[1]}),
         Suite('hash-history', check_history, strategy=history_cases, examples=2000 if big else 150, budget_s=120 if big else 15,
